@@ -427,8 +427,10 @@ class Worker:
                 # If any of the selected tasks ancestor tasks are cancelled
                 # then discard this one too. Each breadcrumb (bcb) is a
                 # task address (unique system-wide task id) of an ancestor
-                # task.
-                # TODO: do I need to manually remove addr from self._tasks?
+                # task. The cancel message arrived before this task did, so
+                # `_handle_cancel` could not remove it; remove it here.
+                task.cancel()
+                self._tasks.pop(addr, None)
                 continue
 
             return task
